@@ -1,5 +1,5 @@
 From Coq Require Import Extraction ExtrOcamlBasic.
 From PP Require Import Reader.FilePieceDefs.
 Extraction "model.ml" Z.of_N Z.to_N Z.of_nat Z.to_nat N.of_nat N.to_nat N.add N.mul Z.opp
-  os_init initial_cap fp_open_read fp_open_istream fp_open_file read_line read_all records
+  os_init initial_cap fp_open_read fp_open_istream fp_open_file fp_open_file_mmap_fails read_line read_all records
   fp_os fp_maps os_trace.
